@@ -86,12 +86,13 @@ theorem child_priv_inf (C : WalletCrypto) (w : HDWallet) (k i : Nat)
   have c1 : ¬ (w.key.length ≠ 33 ∨ i ≥ 2 ^ 32) := by omega
   simp only [c1, ↓reduceIte, hp, hdrop, publicFromPrivate, hval, hP, serPoint]
 
-/-- `Child` on a public key when I_L·G + P is the point at infinity is outside the model -/
+/-- `Child` on a public key when I_L·G + P is the point at infinity panics ("Invalid public key":
+    `BaseMultiplyAdd` reports false there since the `fix:` commit for api-basemultiplyadd-identity) -/
 theorem child_pub_inf (C : WalletCrypto) (w : HDWallet) (i : Nat) (P : Nat × Nat)
     (hw : PubWF w P) (hi : i < 2 ^ 31)
     (hparse : Secp.parsePubkey (Secp.ser33 (some P)) = some P)
     (hQ : Secp.add (Secp.mul (beVal ((C.hmac512 w.chCode (w.key ++ beBytes 4 i)).take 32)) Secp.G) (some P) = none) :
-    child C w i = .error .outside := by
+    child C w i = .error .panic := by
   obtain ⟨hpub, hnpriv, hk⟩ := hw
   have hlen : w.key.length = 33 := by rw [hk]; exact ser33_length P
   have hhead : ¬ (w.key.headD 0 ≠ 2 ∧ w.key.headD 0 ≠ 3) := by
